@@ -56,7 +56,9 @@ func convertObjectToASTNode(obj object.Object) ast.Node {
 		}
 		return ast.Boolean{Base: ast.Base{Token: t}, Val: obj.Value}
 	case object.Quote:
-		return obj.Node
+		// a copy: the same argument may be unquoted at several places of a template, each place is its own sub-tree
+		// (map literals are keyed by node, two uses of one node as key would be one entry).
+		return ast.ModifyNoOk(obj.Node, func(n ast.Node) ast.Node { return n })
 	default:
 		log.Warnf("convertObjectToASTNode: unsupported object type %T", obj)
 		return nil
